@@ -34,7 +34,7 @@ type Env struct {
 	Gas         uint64
 	Fork        Fork
 	// information opcodes (all default to zero when nil)
-	Address, Origin, Caller, CallValue, GasPrice        *big.Int
+	Address, Origin, Caller, CallValue, GasPrice      *big.Int
 	Coinbase, Timestamp, Number, Difficulty, GasLimit *big.Int
 	// ReturnData is the return-data buffer at frame entry (always empty for a fresh frame).
 	ReturnData []byte
@@ -44,9 +44,9 @@ type Env struct {
 type Status int
 
 const (
-	Stopped Status = iota // STOP, RETURN or running off the end of the code
-	Reverted              // REVERT: output and remaining gas survive
-	Failed                // exceptional halt: all gas consumed, no output
+	Stopped  Status = iota // STOP, RETURN or running off the end of the code
+	Reverted               // REVERT: output and remaining gas survive
+	Failed                 // exceptional halt: all gas consumed, no output
 )
 
 func (s Status) String() string { return [...]string{"ok", "revert", "fail"}[s] }
@@ -55,13 +55,13 @@ func (s Status) String() string { return [...]string{"ok", "revert", "fail"}[s] 
 // exceptional-halt checks that can be evaluated before execution (validity, stack, gas), after its gas
 // was charged and memory was expanded, before its effect on stack and pc.
 type Step struct {
-	PC      uint64
-	Op      byte
-	Gas     uint64     // gas before this instruction was charged
-	Cost    uint64     // what was charged for it
-	Stack   []*big.Int // live view, bottom first; do not modify
-	Mem     []byte     // live view after expansion for this instruction
-	Index   int
+	PC    uint64
+	Op    byte
+	Gas   uint64     // gas before this instruction was charged
+	Cost  uint64     // what was charged for it
+	Stack []*big.Int // live view, bottom first; do not modify
+	Mem   []byte     // live view after expansion for this instruction
+	Index int
 }
 
 // Result is the outcome of a frame.
@@ -120,12 +120,12 @@ type opInfo struct {
 }
 
 const (
-	gZero    = 0
-	gBase    = 2
-	gVeryLow = 3
-	gLow     = 5
-	gMid     = 8
-	gHigh    = 10
+	gZero     = 0
+	gBase     = 2
+	gVeryLow  = 3
+	gLow      = 5
+	gMid      = 8
+	gHigh     = 10
 	gJumpdest = 1
 	gExp      = 10
 	gSha3     = 30
